@@ -15,7 +15,7 @@ func init() {
 	register("C11", "seeded structural CBOR items (every head-size and int-range boundary ±2 drawn with probability 1/4 per integer, "+
 		"strings around 23/24/255/256, arrays, int/text-key maps, tags, bool/null, depth ≤ 6) → library Marshal vs Lean marshal; "+
 		"library Unmarshal-to-any on canonical and on randomly widened/shuffled encodings vs Lean decodeAny; round-trip and "+
-		"re-encode oracles on the implementation; distinct = distinct item texts; trivial = scalar items without a boundary value", c11)
+		"re-encode oracles on the implementation; struct shapes with reordering weights and omitempty against a hand-written reference, EncoderOptions.MapKeySort; distinct = distinct item texts; trivial = scalar items without a boundary value", c11)
 }
 
 // safeMarshal runs Marshal under recover.
